@@ -142,6 +142,14 @@ Definition requirement_allows (q : requirement) (auth : N) (st : store) (market 
 Definition endpoint_allowed (name : string) (auth : N) (st : store) (market caller : N) : bool :=
   requirement_allows (endpoint_requirement name) auth st market caller.
 
+(** An item (order, commitment) of market [item_market] is changed by a Market* request only when
+    the caller passes the guard for the request's market AND the item belongs to that market:
+    Keeper.SetOrderExternalID ("order N has market id X, expected Y"), SettleOrders / getBidOrders /
+    getAskOrders (every order must be in the request's market) and the commitment functions (keyed
+    by the request's market id) reject anything else. *)
+Definition item_changed (name : string) (auth : N) (st : store) (req_market item_market caller : N) : bool :=
+  endpoint_allowed name auth st req_market caller && N.eqb req_market item_market.
+
 (* ------------------------------------------------------------------ the documented table (hand transcription) *)
 
 (** [RDelegated ""] = "not a privileged endpoint: no guard expected in the handler, whatever keeper
